@@ -118,7 +118,7 @@ def run(ctx):
     recipes += [A.gen_tree(rng, rng.randint(1, 3), "float") for _ in range(250 if q else 4000)]
     calls = A.correspondence_phase(ctx, "C07", drv, model, recipes, stats)
     for c in calls:
-        if c.res and c.res.startswith(("CRASH", "HANG")):
+        if c.res and c.res.startswith("CRASH"):
             ctx.violation("C07/crash:" + A.crash_class(c), "%s ends with %s (recipe %s)" % (A.call_text(c)[:300], c.res, c.recipe),
                           {"family": "arith", "mode": "T", "case": c.recipe})
     # 2. value oracle
